@@ -21,7 +21,7 @@ from block_eval import A, Evaluator, run2, same, val_json
 from common import ModelErr
 
 PROP = "C13"
-CLAIMED = False
+CLAIMED = True
 ENGINE = "Block"
 DESIGN_REF = "DESIGN.md §5.8"
 TECHNIQUE = (
@@ -69,6 +69,7 @@ ASSUMPTIONS = [
 ]
 
 KNOWN_RMOD = "blockarray-rmod-missing"
+KNOWN_TUPLE = "map-blocks-tuple-results"
 
 # ---------------------------------------------------------------------------------------------
 
@@ -554,13 +555,19 @@ def make_oracle(env):
                 want = blockwise(raw, args, kwargs)
             except Exception as e:  # noqa: BLE001
                 want = ("err", common.err_kind(e))
+            if want[0] == "ok" and isinstance(want[1], list) and all(be.is_arr(w) for w in want[1]) and len({str(w.dtype) for w in want[1]}) > 1:
+                want = ("err", "dtype")  # per-block results of different dtypes: a block array must not be formed
             if want[0] == "err":
                 bad = impl[0] != "err"
             elif impl[0] == "err":
                 bad = True
             elif isinstance(want[1], list):
                 r = impl[1]
-                bad = not (isinstance(r, BA) and len(r) == len(want[1]) and all(same(env.jnp.array(w) if not be.is_arr(w) else w, r.arrays[i]) for i, w in enumerate(want[1])))
+                if any(isinstance(w, (tuple, list)) for w in want[1]):
+                    # several outputs per block: the documented result would be those outputs block by block
+                    bad = not (isinstance(r, tuple) and all(isinstance(t, BA) for t in r))
+                else:
+                    bad = not (isinstance(r, BA) and len(r) == len(want[1]) and all(same(env.jnp.array(w) if not be.is_arr(w) else w, r.arrays[i]) for i, w in enumerate(want[1])))
             else:
                 bad = not same(want[1], impl[1])
             if bad:
@@ -630,6 +637,7 @@ def section_names(env, ctx, model):
     reductions = set(t["reduction_functions"])
     todo = [("jnp:" + n, n, "math") for n in dict.fromkeys(t["mathematical_functions"])] + [("jsp:" + n, n, "special") for n in t["special_functions"]]
     nopattern = []
+    multi_output = []
     structs_valid = ["a", "b", "c", "d", "e", "h"]
     extra_structs = ["f", "g"] if ctx.thorough else []
     dtypes = [None, np.float32] if ctx.thorough else [None]
@@ -660,6 +668,13 @@ def section_names(env, ctx, model):
             continue
         tmpl, kwt, st = chosen
         ctx.count(f"names:family={'special' if name in SPECIAL else ''.join(str(x) for x in tmpl)}")
+        try:
+            a0 = [x.arrays[0] if isinstance(x, env.BlockArray) else x for x in instantiate(env, rng, tmpl, st)]
+            if isinstance(raw(*a0, **kwt), (tuple, list)):
+                multi_output.append(name)
+                ctx.count("names:multi-output (results converted with jnp.array, finding map-blocks-tuple-results)")
+        except Exception:  # noqa: BLE001
+            pass
         fam_tag = "".join(str(x) for x in tmpl)
         for dtp in dtypes:
             for stx in [st] + (extra_structs if ctx.thorough else ([["f", "g"][int(rng.integers(0, 2))]] if (st in ("a", "b") and rng.random() < 0.5) else [])):
@@ -685,6 +700,7 @@ def section_names(env, ctx, model):
                 run_call(env, ctx, model, "names", kind, fn_id, raw, snp_fn, longer, dict(kwt), f"{fam_tag}/second-longer")
     ctx.extra["names_without_accepted_pattern"] = sorted(nopattern)
     ctx.extra["names_skipped"] = SKIP_NAMES
+    ctx.extra["names_with_several_outputs"] = sorted(multi_output)
     ctx.exhaustive = True
     # testing functions (void wrapper)
     for name in t["testing_functions"]:
@@ -1222,6 +1238,14 @@ def replay_case(env, ctx, model, case, from_corpus=None):
 
 def findings(ctx, model):
     env = Env()
+    if ctx.is_known(KNOWN_TUPLE):
+        x = env.BlockArray([env.jnp.array([[2.0, 1.0], [0.0, 3.0]]), 2.0 * env.jnp.eye(3)])
+        try:
+            r = env.snp.linalg.eig(x)
+            still = not (isinstance(r, tuple) and len(r) == 2 and all(isinstance(t, env.BlockArray) for t in r))
+        except Exception:  # noqa: BLE001
+            still = True
+        ctx.known_finding(KNOWN_TUPLE, still)
     if ctx.is_known(KNOWN_RMOD):
         x = env.BlockArray([env.jnp.array([5.0, 7.0]), env.jnp.array(9.0)])
         try:
@@ -1279,6 +1303,15 @@ def search(ctx, model, why):
             case = {"section": "search", "kind": "map", "fn": fn_id, "args": [jsonable(a) for a in args], "kwargs": {k: jsonable(v) for k, v in kwt.items()}}
             r = oracle(case)
             if r is not None:
+                a0 = [x.arrays[0] if isinstance(x, env.BlockArray) else x for x in args]
+                try:
+                    multi = isinstance(raw(*a0, **kwt), (tuple, list))
+                except Exception:  # noqa: BLE001
+                    multi = False
+                if multi and ctx.is_known(KNOWN_TUPLE):
+                    ctx.known_finding(KNOWN_TUPLE, True)  # several outputs per block: recorded finding
+                    ctx.count("search:multi-output-function (known finding)")
+                    break
                 return r
             break
     return None
